@@ -30,7 +30,7 @@ ANCHORS = [
 ]
 REQUIRED_ANCHORS = ANCHORS
 ITERABLES = ("list", "tuple", "set", "frozenset", "keys", "generator", "iterator")
-REQUIRED = ["subgraphs", "composes", "component_checks", "recompose_components", "cut_descriptor", "cut_change", "with_placeholder"] + [f"iterable:{k}" for k in ITERABLES] + ["cover:components", "cover:partition", "cover:overlap", "scale_cases"]
+REQUIRED = ["subgraphs", "composes", "component_checks", "recompose_components", "cut_descriptor", "cut_change", "with_placeholder"] + [f"iterable:{k}" for k in ITERABLES] + ["cover:components", "cover:partition", "cover:overlap", "scale_cases", "mixed_class_pieces"]
 
 
 def as_iterable(kind, S):
@@ -175,7 +175,28 @@ def check_case(ctx, case):
     except Exception as e:  # noqa: BLE001
         ctx.violate(f"C17/subgraph-raises:{type(e).__name__}/{cls}/collection", f"subgraph raised {e!r}", case)
         return
-    want = sem.pg_union([sem.pg_subgraph(src, set(p)) for p in parts], cls)
+    piece_pgs = [sem.pg_subgraph(src, set(p)) for p in parts]
+    # mixed-class compose: some pieces are handed over as instances of a base class of cls (a spectator molecule given
+    # as a StereoMolGraph to StereoCondensedReactionGraph.compose, ...); they contribute what that class can hold
+    bases = {"MolGraph": [], "StereoMolGraph": ["MolGraph"], "CondensedReactionGraph": ["MolGraph"], "StereoCondensedReactionGraph": ["StereoMolGraph", "CondensedReactionGraph", "MolGraph"]}[cls]
+    downcast = False
+    if bases and "scale" not in case and rng.random() < 0.35:
+        for k in range(len(pieces)):
+            if rng.random() < 0.5:
+                B = rng.choice(bases)
+                down = classes()[B](pieces[k])
+                exp = sem.pg_copy(piece_pgs[k])
+                exp["cls"] = B
+                if not B.startswith("Stereo"):
+                    exp["astereo"], exp["bstereo"] = {}, {}
+                exp["achange"], exp["bchange"] = {}, {}
+                if sem.pg_diff(exp, snap(down), mode="exact"):
+                    ctx.count("harness:downcast-differs")  # copy-construction into a base class is not C17's subject
+                    continue
+                pieces[k], piece_pgs[k] = down, exp
+                downcast = True
+                ctx.count("mixed_class_pieces")
+    want = sem.pg_union(piece_pgs, cls)
     ctx.case((sem.canon_key(pg), cover, len(parts)), len(parts) >= 2)
     ctx.count("composes")
     seq = pieces if case["pieces_as"] == "list" else tuple(pieces)
@@ -185,7 +206,7 @@ def check_case(ctx, case):
         ctx.violate(f"C17/compose-raises:{type(e).__name__}/{cls}/{cover}", f"compose of {len(parts)} pieces raised {e!r}", case)
         return
     ok = _check_graph(ctx, comp, want, cls, case, f"compose/{cls}/{cover}", f"compose of {len(parts)} {cover} pieces")
-    if cover == "components" and ok:
+    if cover == "components" and ok and not downcast:
         ctx.count("recompose_components")
         d1 = sem.pg_diff(src, snap(comp), mode="exact")
         if d1:
